@@ -13,14 +13,35 @@ impl<T> Atomic<T> {
     }
 
     pub(crate) fn load<'g>(&self, ordering: Ordering, guard: &'g Guard<'_>) -> Shared<'g, T> {
+        #[cfg(flurry_verif)]
+        crate::verif::ptr_op::<T>(
+            crate::verif::LOAD,
+            &self.0 as *const _ as usize,
+            crate::verif::ord(ordering),
+            &[],
+        );
         guard.protect(&self.0, ordering).into()
     }
 
     pub(crate) fn store(&self, new: Shared<'_, T>, ordering: Ordering) {
+        #[cfg(flurry_verif)]
+        crate::verif::ptr_op::<T>(
+            crate::verif::STORE,
+            &self.0 as *const _ as usize,
+            crate::verif::ord(ordering),
+            &[new.ptr as usize],
+        );
         self.0.store(new.ptr, ordering);
     }
 
     pub(crate) unsafe fn into_box(self) -> Box<Linked<T>> {
+        #[cfg(flurry_verif)]
+        crate::verif::ptr_op::<T>(
+            crate::verif::INTO_BOX,
+            self.0.load(Ordering::Relaxed) as usize,
+            0,
+            &[],
+        );
         Box::from_raw(self.0.into_inner())
     }
 
@@ -30,6 +51,13 @@ impl<T> Atomic<T> {
         ord: Ordering,
         _: &'g Guard<'_>,
     ) -> Shared<'g, T> {
+        #[cfg(flurry_verif)]
+        crate::verif::ptr_op::<T>(
+            crate::verif::SWAP,
+            &self.0 as *const _ as usize,
+            crate::verif::ord(ord),
+            &[new.ptr as usize],
+        );
         self.0.swap(new.ptr, ord).into()
     }
 
@@ -41,6 +69,13 @@ impl<T> Atomic<T> {
         failure: Ordering,
         _: &'g Guard<'_>,
     ) -> Result<Shared<'g, T>, CompareExchangeError<'g, T>> {
+        #[cfg(flurry_verif)]
+        crate::verif::ptr_op::<T>(
+            crate::verif::CAS,
+            &self.0 as *const _ as usize,
+            crate::verif::ord(success) << 8 | crate::verif::ord(failure),
+            &[new.ptr as usize, current.ptr as usize],
+        );
         match self
             .0
             .compare_exchange(current.ptr, new.ptr, success, failure)
@@ -62,6 +97,8 @@ impl<T> From<Shared<'_, T>> for Atomic<T> {
 
 impl<T> Clone for Atomic<T> {
     fn clone(&self) -> Self {
+        #[cfg(flurry_verif)]
+        crate::verif::ptr_op::<T>(crate::verif::CLONE, &self.0 as *const _ as usize, 0, &[]);
         Atomic(self.0.load(Ordering::Relaxed).into())
     }
 }
@@ -94,10 +131,19 @@ impl<'g, T> Shared<'g, T> {
     }
 
     pub(crate) fn boxed(value: T, collector: &Collector) -> Self {
+        #[cfg(flurry_verif)]
+        crate::verif::ptr_op::<T>(
+            crate::verif::BOXED,
+            std::mem::size_of::<Linked<T>>(),
+            std::mem::align_of::<Linked<T>>(),
+            &[],
+        );
         Shared::from(collector.link_boxed(value))
     }
 
     pub(crate) unsafe fn into_box(self) -> Box<Linked<T>> {
+        #[cfg(flurry_verif)]
+        crate::verif::ptr_op::<T>(crate::verif::INTO_BOX, self.ptr as usize, 0, &[]);
         Box::from_raw(self.ptr)
     }
 
@@ -106,10 +152,14 @@ impl<'g, T> Shared<'g, T> {
     }
 
     pub(crate) unsafe fn as_ref(&self) -> Option<&'g Linked<T>> {
+        #[cfg(flurry_verif)]
+        crate::verif::ptr_op::<T>(crate::verif::DEREF, self.ptr as usize, 0, &[]);
         self.ptr.as_ref()
     }
 
     pub(crate) unsafe fn deref(&self) -> &'g Linked<T> {
+        #[cfg(flurry_verif)]
+        crate::verif::ptr_op::<T>(crate::verif::DEREF, self.ptr as usize, 0, &[]);
         &*self.ptr
     }
 
@@ -149,6 +199,8 @@ pub(crate) trait RetireShared {
 
 impl RetireShared for Guard<'_> {
     unsafe fn retire_shared<T>(&self, shared: Shared<'_, T>) {
+        #[cfg(flurry_verif)]
+        crate::verif::ptr_op::<T>(crate::verif::RETIRE, shared.ptr as usize, 1, &[]);
         self.defer_retire(shared.ptr, seize::reclaim::boxed::<Linked<T>>);
     }
 }
